@@ -17,6 +17,9 @@ Both the single-stepped threadless executor and the thread-per-connection handle
 """
 import os
 import gzip
+import array
+import fcntl
+import termios
 import random
 import shutil
 import threading
@@ -308,6 +311,26 @@ def run_case(case: Dict[str, Any]) -> Dict[str, Any]:
                     sample()
                 if case['close_timing'] != 'before-client-reads':
                     client_read()
+            if case.get('up_end') == 'rst' and not threaded:
+                # the upstream aborts (RST) instead of closing - but only once the proxy has taken every byte it sent, so that
+                # whatever is missing at the client afterwards was lost inside the proxy and not in a kernel queue
+                def _taken() -> bool:
+                    try:
+                        if _ioctl_int(oc.sock, termios.TIOCOUTQ) != 0:
+                            return False
+                        for w in rig.work_objs():
+                            up = getattr(getattr(w, 'plugin', None), 'upstream', None)
+                            if up is not None and not up.closed and _ioctl_int(up.connection, termios.FIONREAD) != 0:
+                                return False
+                        return True
+                    except (OSError, ValueError):
+                        return False
+                rig.until(_taken, [oc] if case['close_timing'] == 'before-client-reads' else [client, oc], idle_timeout=0.5)
+                if not rem and pi >= len(pieces) and _taken():
+                    pending = any(w.work.has_buffer() for w in rig.work_objs())
+                    oc.reset_close()
+                    obs['upstream_rst'] = 1
+                    obs['upstream_rst_with_output_pending'] = 1 if pending else 0
             oc.close()          # the upstream closes: FIN right behind its last byte
             if kind == 'tunclose':
                 produced = bytes(client.rx[:ack_len]) + up_stream
@@ -440,6 +463,12 @@ def run_case(case: Dict[str, Any]) -> Dict[str, Any]:
             'sample': {'case': case, 'flush_calls': flushes, 'extra_iterations_before_eof': extra_iters, 'shim': counts}}
 
 
+def _ioctl_int(sock: Any, req: int) -> int:
+    buf = array.array('i', [0])
+    fcntl.ioctl(sock.fileno(), req, buf)
+    return buf[0]
+
+
 def h11_ack_ok(ack: bytes) -> bool:
     ms, err, rest = h11util.parse_responses(ack, [b'CONNECT'], eof=False)
     return not err and len(ms) == 1 and ms[0]['code'] == 200 and not rest
@@ -481,6 +510,8 @@ def cases(tier: str, seed: int):
             c['predecessor'] = rng.choice([1, 1, 3])
         if kind in ('static', 'static-nogz', 'webclose', 'reject') and rng.random() < 0.35:
             c['halfclose'] = rng.choice(['at-once', 'mid'])
+        if kind in ('upclose', 'tunclose') and rigk == 'step' and rng.random() < 0.4:
+            c['up_end'] = 'rst'
         if kind == 'webkeep':
             c['halfclose'] = rng.choice(['at-once', 'mid', 'mid'])      # this connection only ends because the client half-closes
         if kind == 'error':
@@ -497,7 +528,7 @@ def cases(tier: str, seed: int):
 
 
 def floors(tier: str) -> Dict[str, int]:
-    fl = {'client_half_close_cases': 40, 'saw_flush_before_shutdown_state': 100, 'flush>=10': 50, 'rig:thread': 100, 'rig:step': 300, 'shim:short': 200,
+    fl = {'upstream_rst': 20, 'upstream_rst_with_output_pending': 8, 'client_half_close_cases': 40, 'saw_flush_before_shutdown_state': 100, 'flush>=10': 50, 'rig:thread': 100, 'rig:step': 300, 'shim:short': 200,
           'shim:eagain': 100, 'distinct:handler_states': 4}
     for k in ('static', 'static-nogz', 'webclose', 'webkeep', 'reject', 'error', 'upclose', 'tunclose'):
         fl['kind:' + k] = 30
